@@ -63,7 +63,7 @@ def main():
           f"* not detected: {sum(r['status'] == 'not detected' for r in results)}", "",
           "| change | property | now |", "|---|---|---|"]
     md += [f"| {r['name']} | {r['prop']} | {r['status']} |" for r in results]
-    open(os.path.join(ROOT, "seeded", "REGRESSION.md"), "w").write("\n".join(md) + "\n")
+    open(os.environ.get("REGRESSION_OUT", os.path.join(ROOT, "seeded", "REGRESSION.md")), "w").write("\n".join(md) + "\n")
     for k in range(workers):
         sh(f"git -C /repo worktree remove --force {os.path.join(BASE, f'w{k}')}", "/")
 
